@@ -4,6 +4,7 @@ import (
 	"fmt"
 	"math"
 	"strings"
+	"sync"
 
 	structform "github.com/elastic/go-structform"
 
@@ -339,7 +340,40 @@ func streamFamilies(tier string, run streamBody) []engine.Family {
 			want, _ := model.ValueOf(evs)
 			run(x, &StreamCase{Codec: cd, Opts: 0, Evs: evs, Want: want, Fam: "ext", Class: leafClass(ev)})
 		}},
+		{Name: "ext-pairs", Arity: []int{3, 2}, Body: func(x *engine.Exec) {
+			// every ordered pair of width-boundary values as a two-element typed integer array (an encoder that picks one
+			// element width for the whole array must look at both elements, in both orders)
+			cd := codecs[x.Choose(3)]
+			ctx := []int{0, 1}[x.Choose(2)]
+			pairs := extPairsCache()
+			ev := pairs[x.Choose(len(pairs))]
+			evs := gen.Context(ctx, ev)
+			want, _ := model.ValueOf(evs)
+			run(x, &StreamCase{Codec: cd, Opts: 0, Evs: evs, Want: want, Fam: "ext-pairs", Class: "ext-pair:" + ev.K.String()})
+		}},
+		{Name: "ext-sizes", Arity: []int{3, len(extSizes)}, Body: func(x *engine.Exec) {
+			// typed arrays and maps of n elements around the length-encoding boundaries of the formats
+			cd := codecs[x.Choose(3)]
+			n := extSizes[x.Choose(len(extSizes))]
+			sized := gen.ExtSizedEvents(n)
+			ev := sized[x.Choose(len(sized))]
+			evs := gen.Context([]int{0, 1}[x.Choose(2)], ev)
+			want, _ := model.ValueOf(evs)
+			run(x, &StreamCase{Codec: cd, Opts: 0, Evs: evs, Want: want, Fam: "ext-sizes", Class: fmt.Sprintf("ext-size:%d", n)})
+		}},
 	}...)
+}
+
+var extSizes = []int{23, 24, 25, 127, 128, 255, 256, 257}
+
+var (
+	extPairsOnce sync.Once
+	extPairsAll  []model.Event
+)
+
+func extPairsCache() []model.Event {
+	extPairsOnce.Do(func() { extPairsAll = gen.ExtPairEvents() })
+	return extPairsAll
 }
 
 // streamMaxNodes, when set by a check while it builds its families, overrides the tree size bound.
